@@ -1,4 +1,12 @@
-pub fn worker_main(_args: &[String]) -> i32 {
-    eprintln!("machinery: unknown worker");
-    2
+pub mod sandbox;
+pub mod workers;
+
+pub fn worker_main(args: &[String]) -> i32 {
+    let name = args.first().map(|x| x.as_str()).unwrap_or("");
+    match name {
+        _ => {
+            eprintln!("machinery: unknown worker {:?}", name);
+            2
+        },
+    }
 }
